@@ -49,6 +49,8 @@ class SmallCache(kvfile.KVFile):
 
 
 def key_spec(shape, side):
+    if shape == 'rownum+k':
+        return '{#}:{k}'
     if shape == 'list':
         return ['k']
     if shape == 'format':
@@ -59,6 +61,8 @@ def key_spec(shape, side):
 
 
 def render(shape, row, n):
+    if shape == 'rownum+k':
+        return '{#}:{k}'.format(**dict(row, **{'#': n}))
     if shape == 'list':
         return '{k}'.format(**row)
     if shape == 'format':
@@ -352,6 +356,12 @@ def cases(tier):
                     out.append({'u': u, 'src': s, 'tgt': [], 'shape': 'list', 'dedup': True, 'onlylast': 'wild-' + agg})
             if u == 'num':
                 out.append({'u': u, 'src': s, 'tgt': [], 'shape': 'list', 'dedup': True, 'numkey': True})
+        if u == 'num':
+            # keys made of the row number AND a field, three rows on each side: an unmatched target row in the middle
+            for sk in itertools.product(('a', 'b'), repeat=3):
+                for tk in itertools.product(('a', 'c'), repeat=3):
+                    for mode in ('inner', 'half-outer', 'full-outer'):
+                        out.append({'u': u, 'src': [[k_, 1] for k_ in sk], 'tgt': list(tk), 'mode': mode, 'shape': 'rownum+k'})
         if tier == 'thorough':
             for s in seqs(list(itertools.product(KEYS_SRC, vals)), 3):
                 if len(s) < 3:
